@@ -130,12 +130,16 @@ def run(ctx):
                 ctx.violation("parse/operand-value/%s" % kind, "parse_operand(%s) does not deliver the word it read" % kind, None)
         if not oks:
             ctx.ob("parse_operand/%s/has-ok-path" % kind, None, "no accepting path")
+    # ---------------- parameters of enumerants / mask bits, context-dependent literal widths
+    c03.mask_parameter_bits(ctx, S, q, rp)
+    c03.enum_parameter_values(ctx, S, q, rp)
+    import c10
+    c10.literal_lemmas(ctx, q, S, rp)
     # ---------------- framing
     c04.assemble_index(ctx, q, S)
     # ---------------- decode method pairing (token level)
     import c11
-    n, bad = c11.typed_decode_shapes(ctx)
-    ctx.extra["decode_methods_same_shape"] = n - len(bad)
+    ctx.extra["typed_requests_decided_from_mir"] = c11.typed_requests_mir(ctx)
     # ---------------- native inverse on one instruction per kind (validation of the pairing)
     native_roundtrip(ctx, S, rp, P)
     rp.close()
